@@ -254,6 +254,8 @@ func (d Date) Diff(val Value) (Value, Value) {
 		return ToValueErr(d.SubtractDateSpanErr(v))
 	case *DateTimeSpan:
 		return Ref(d.SubtractDateTimeSpan(v)), Undefined
+	case *DateTime:
+		return Ref(d.DiffDateTime(v)), Undefined
 	default:
 		return Undefined, Ref(NewArgumentTypeError("other", val.Class().Inspect(), DateClass.Inspect()))
 	}
